@@ -165,6 +165,32 @@ def r11_2(rep, M, rid, obj, br):
     # the index comes from the loop over the transformation matrix
     loop = [lp for lp in ast.walk(br) if isinstance(lp, ast.For) and "transformation_matrix" in norm(lp.iter)
             and any(isinstance(s, ast.Assign) and norm(s.targets[0]) == idx for s in ast.walk(lp))]
+    # spglib convention: x_std = P x_orig + p, so ROWS of dataset.transformation_matrix belong to the standardised axes and
+    # COLUMNS to the original ones. The standardised axis i is the image of the original non-periodic axis k iff row i has its
+    # only non-zero entry in column k. Scanning the rows of the transposed matrix finds the inverse relabelling instead,
+    # which differs for cyclic relabellings (a->b->c).
+    conv_ok = None
+    if loop:
+        lp = loop[0]
+        it = lp.iter
+        arg = it.args[0] if isinstance(it, ast.Call) and isinstance(it.func, ast.Name) and it.func.id == "enumerate" and it.args else it
+        from .. import linalg
+        from ..symrules import resolver
+        f = linalg.nf(arg, resolver(M, FQ), {})
+        tv = [x.id for x in ast.walk(lp.target) if isinstance(x, ast.Name)]
+        rowvar = tv[-1] if tv else None
+        uses_orig = any(isinstance(x, ast.Subscript) and isinstance(x.value, ast.Name) and x.value.id == rowvar and "i_pbc" in norm(x.slice)
+                        for x in ast.walk(lp))
+        if f is not None and len(f) == 1 and f[0][0].endswith("transformation_matrix") and uses_orig:
+            conv_ok = not f[0][2] and not f[0][1]
+    if conv_ok is True:
+        rep.ok(rid, "the standardised non-periodic axis is the ROW of the transformation matrix whose only entry is in the original non-periodic column")
+    elif conv_ok is False:
+        rep.violation(rid, "2D branch: axis detection convention", "the rows of the *transposed* (or inverted) transformation matrix are scanned: "
+                      "spglib's matrix maps original to standardised coordinates (x_std = P x), so this finds the inverse relabelling; for cyclic "
+                      "relabellings of the axes the wrong standardised axis is made non-periodic", M.where(FQ, loop[0]))
+    elif loop:
+        raise AnalysisError("2D branch: scan of the transformation matrix not recognised")
     raised = any(isinstance(t, ast.If) and idx and idx in norm(t.test) and "None" in norm(t.test) and any(isinstance(x, ast.Raise) for x in t.body)
                  for t in ast.walk(br))
     if all_true and one_false and loop and raised:
@@ -219,7 +245,26 @@ def r11_3(rep, M, E, rid):
     vac = [c for c in ast.walk(fn) if isinstance(c, ast.Call) and isinstance(c.func, ast.Name) and c.func.id == "max"]
     thick = any((GEO + ".get_thickness") in M.callees_of_call(ss, c) for c in ast.walk(fn) if isinstance(c, ast.Call))
     if vac and thick:
-        rep.ok(rid, "2D input: symmetry-breaking vacuum max(const, k*thickness) along the non-periodic vector")
+        # the padded cell length must exceed twice the layer thickness: with L = 2 t two identical atomic planes at
+        # distance t acquire the translation c/2 and spglib folds the layer
+        from fractions import Fraction
+        ks = []
+        for a in vac[0].args:
+            if isinstance(a, ast.BinOp) and isinstance(a.op, ast.Mult):
+                for num, other in ((a.left, a.right), (a.right, a.left)):
+                    if isinstance(num, ast.Constant) and isinstance(num.value, (int, float)) and any(
+                            isinstance(c, ast.Call) and (GEO + ".get_thickness") in M.callees_of_call(ss, c) for c in ast.walk(other)):
+                        ks.append(Fraction(str(num.value)))
+            elif isinstance(a, ast.Call) and (GEO + ".get_thickness") in M.callees_of_call(ss, a):
+                ks.append(Fraction(1))
+        if not ks:
+            raise AnalysisError("set_system: thickness term of the vacuum not recognised")
+        if min(ks) > 2:
+            rep.ok(rid, f"2D input: symmetry-breaking cell length max(const, {min(ks)}*thickness) > 2*thickness along the non-periodic vector")
+        else:
+            rep.violation(rid, "set_system: vacuum factor", f"the analysed cell is only {min(ks)} x the layer thickness long: at exactly twice the "
+                          "thickness a layer made of two identical atomic planes gets the spurious translation c/2 and is folded into a monolayer "
+                          "(its id then equals the monolayer's)", M.where(ss, vac[0]))
     else:
         rep.violation(rid, "set_system: vacuum", "no thickness-dependent vacuum is added for 2D systems", M.where(ss))
 
@@ -250,6 +295,10 @@ def run(rep, ctx):
             rep.ok("R11.4", "get_material_id prefixes '2D' under n_pbc == 2")
         else:
             rep.violation("R11.4", "get_material_id: 2D prefix", "the id of a 2D system equals the id of the same cell treated as 3D", M.where(SA + ".get_material_id"))
+    rep.rule("R11.5", "every memoised result of the analyzer is dropped by reset(), which set_system() calls (no answers for a previous structure)")
+    with rep.guard("R11.5"):
+        from .. import symrules as _SR
+        _SR.reset_covers_caches(rep, ctx.model, "R11.5")
     rep.floor("R11.1", 7)
     rep.floor("R11.2", 2)
     rep.floor("R11.3", 5)
